@@ -1,14 +1,16 @@
 (** C05 — JWT authentication accepts exactly the correctly signed, asserted tokens.
     Property theorems only; proofs are in C05/Proofs.v, the specification
     vocabulary ([spec_accepts], [trusted_issuers], [allowed_algs], [expected_audiences],
-    [required_scopes], [leeway], [guard_F1], [guard_F2], [sane_clock]) in C05/Spec.v, [demands]
+    [required_scopes], [leeway], [guard_F1], [guard_F2], [guard_F3], [sane_clock]) in C05/Spec.v, [demands]
     and [window_ok] in C05/Proofs.v.
 
     [authenticate cf ks now cred] is jwtAuthenticator.Execute on a request whose
     configured sources yield [cred], for the mechanism + rule-level configuration
     [cf], the key set [ks] published by the JWKS endpoint and the clock [now] (ns).
     [sig_ok t k] (does the signature of [t] verify with the material of [k]) and
-    certificate validity are oracles: cryptography is not modelled. *)
+    certificate validity are oracles: cryptography is not modelled.
+    [authenticate] is the code as it is now, i.e. with the fix: commits a3a89b7
+    (C05-F1) and f16c3cc (C05-F2); [authenticate_pinned] is the code before them. *)
 From HV Require Import Base.Prelude Base.Time C05.Model C05.Spec C05.Proofs.
 
 (** A subject is created only if: a key [k] published by the key-set endpoint
@@ -20,7 +22,7 @@ From HV Require Import Base.Prelude Base.Time C05.Model C05.Spec C05.Proofs.
     and `iat` is not in the future; the subject id is the configured member of
     these claims.  ([demands], unfolded in C05_demands_unfold below.) *)
 Theorem C05_accept_sound : forall cf ks now t sub,
-  sane_clock cf now -> guard_F1 (CToken t) = false -> guard_F2 (CToken t) = false ->
+  sane_clock cf now -> guard_F3 (CToken t) = false ->
   authenticate cf ks now (CToken t) = Accepted sub ->
   demands cf ks now t sub.
 Proof. exact accept_sound. Qed.
@@ -48,43 +50,52 @@ Print Assumptions C05_demands_unfold.
 
 (** "accepts exactly": conversely, a token meeting the demands is accepted *)
 Theorem C05_accept_complete : forall cf ks now t sub,
-  sane_clock cf now -> guard_F1 (CToken t) = false -> guard_F2 (CToken t) = false ->
+  sane_clock cf now -> guard_F3 (CToken t) = false ->
   t_payload_obj t = true -> cf_remote cf = RUp ->
   demands cf ks now t sub ->
   authenticate cf ks now (CToken t) = Accepted sub.
 Proof. exact accept_complete. Qed.
 Print Assumptions C05_accept_complete.
 
-(** both directions at once, for every kind of credential, against the executable specification *)
+(** both directions at once, for every kind of credential, against the executable specification;
+    the only guard left is the exotic C05-F3 (`exp` = -62135596800, the Unix time of Go's zero time.Time) *)
 Theorem C05_authenticate_iff_spec : forall cf ks now cr,
-  sane_clock cf now -> guard_F1 cr = false -> guard_F2 cr = false ->
+  sane_clock cf now -> guard_F3 cr = false ->
   accepted_sub (authenticate cf ks now cr) = spec_accepts cf ks now cr.
 Proof. exact authenticate_spec. Qed.
 Print Assumptions C05_authenticate_iff_spec.
 
-(** with the repairs of fixes/C05-F1.diff and fixes/C05-F2.diff no guard remains
-    (but for an `exp` equal to the Unix time of Go's zero time.Time, year 1) *)
-Theorem C05_fixed_iff_spec : forall cf ks now cr,
-  sane_clock cf now ->
-  (forall t, cr = CToken t -> c_exp (t_claims t) <> Some zero_time_unix) ->
-  accepted_sub (authenticate_gen true true cf ks now cr) = spec_accepts cf ks now cr.
-Proof. exact authenticate_fixed_spec. Qed.
-Print Assumptions C05_fixed_iff_spec.
+(** C05-F3 (open): `exp` exactly -62135596800 still counts as "no expiry" *)
+Theorem C05_F3_refuted :
+  exists cf ks now cr, sane_clock cf now /\ guard_F3 cr = true /\
+    accepted_sub (authenticate cf ks now cr) = Some "alice"%string /\ spec_accepts cf ks now cr = None.
+Proof. exact F3_refuted. Qed.
+Print Assumptions C05_F3_refuted.
 
-(** C05-F1: `exp <= 0` never expires.  C05-F2: `nbf`/`iat` beyond int64 count as not set. *)
-Theorem C05_F1_refuted :
+(** the code before a3a89b7 / f16c3cc met the specification outside C05-F1 (`exp <= 0` never expires)
+    and C05-F2 (`nbf`/`iat` beyond int64 count as not set) ... *)
+Theorem C05_pinned_iff_spec : forall cf ks now cr,
+  sane_clock cf now -> guard_F1 cr = false -> guard_F2 cr = false ->
+  accepted_sub (authenticate_pinned cf ks now cr) = spec_accepts cf ks now cr.
+Proof. exact pinned_spec. Qed.
+Print Assumptions C05_pinned_iff_spec.
+
+(** ... and violated it there; the witnesses are rejected by the code as it is now *)
+Theorem C05_F1_pinned_refuted :
   exists cf ks now cr, sane_clock cf now /\ guard_F1 cr = true /\ guard_F2 cr = false /\
-    accepted_sub (authenticate cf ks now cr) = Some "alice"%string /\ spec_accepts cf ks now cr = None.
-Proof. exact F1_refuted. Qed.
-Print Assumptions C05_F1_refuted.
+    accepted_sub (authenticate_pinned cf ks now cr) = Some "alice"%string /\ spec_accepts cf ks now cr = None /\
+    authenticate cf ks now cr = Failed EAssertion.
+Proof. exact F1_pinned_refuted. Qed.
+Print Assumptions C05_F1_pinned_refuted.
 
-Theorem C05_F2_refuted :
+Theorem C05_F2_pinned_refuted :
   exists cf ks now cr, sane_clock cf now /\ guard_F1 cr = false /\ guard_F2 cr = true /\
-    accepted_sub (authenticate cf ks now cr) = Some "alice"%string /\ spec_accepts cf ks now cr = None.
-Proof. exact F2_refuted. Qed.
-Print Assumptions C05_F2_refuted.
+    accepted_sub (authenticate_pinned cf ks now cr) = Some "alice"%string /\ spec_accepts cf ks now cr = None /\
+    authenticate cf ks now cr = Failed EAssertion.
+Proof. exact F2_pinned_refuted. Qed.
+Print Assumptions C05_F2_pinned_refuted.
 
-(** Unguarded, for every clock and both the current and the repaired code: no
+(** Unguarded, for every clock and both the current and the former code: no
     subject without a published, usable key that verifies the signature,
     declares the token's algorithm, an allowed one; never from malformed claims
     or an untrusted issuer; the subject id comes from the token's verified claims. *)
@@ -179,7 +190,7 @@ Print Assumptions C05_wildcard_scopes.
 (** non-vacuity: a token at the edge of its validity window is accepted, one second further it is not *)
 Example C05_nonvacuous :
   let t := ex_token (Some 1789999991%Z) (Some 1790000010%Z) (Some 1790000010%Z) in
-  sane_clock ex_cf ex_now /\ guard_F1 (CToken t) = false /\ guard_F2 (CToken t) = false /\
+  sane_clock ex_cf ex_now /\ guard_F3 (CToken t) = false /\
   authenticate ex_cf ex_keys ex_now (CToken t) = Accepted "alice" /\
   authenticate ex_cf ex_keys ex_now (CToken (ex_token (Some 1789999990%Z) None None)) = Failed EAssertion /\
   authenticate ex_cf ex_keys ex_now (CToken (ex_token None (Some 1790000011%Z) None)) = Failed EAssertion /\
